@@ -652,7 +652,12 @@ func ruleFootnoteNumbering(w *World, r *Report) {
 						}
 						return v
 					}
-					creations = append(creations, creation{cc, subst(idx), ri, c.Block(), subst})
+					if _, fromCaller := stripConv(ri).(*ssa.Parameter); fromCaller {
+						// the RefIndex is handed in: it is judged where the transformer computes it
+						creations = append(creations, creation{cc, subst(idx), subst(ri), cc.Block(), func(v ssa.Value) ssa.Value { return v }})
+					} else {
+						creations = append(creations, creation{cc, subst(idx), ri, c.Block(), subst})
+					}
 				}
 			}
 		}
